@@ -793,6 +793,14 @@ class VertexROIBase(Roi):
         self.vy = [] if vy is None else list(vy)
         self.theta = 0
 
+    def copy(self):
+        # The copy gets its own lists of vertices, since these are modified
+        # in place when adding or replacing points
+        result = super().copy()
+        result.vx = list(self.vx)
+        result.vy = list(self.vy)
+        return result
+
     def transformed(self, xfunc=None, yfunc=None):
         vx = self.vx if xfunc is None else xfunc(np.asarray(self.vx))
         vy = self.vy if yfunc is None else yfunc(np.asarray(self.vy))
